@@ -1291,6 +1291,19 @@ def typed_recipe(r, kinds=None):
     return rec
 
 
+def typed_expansion_recipe(r):
+    """the expansion profile of tools/gsubgen.py (contextual / chained rules of all three formats whose records grow the matched
+    sequence by 2-4 glyphs and whose later records address every place of the grown sequence) as a typed recipe: the rules sit
+    under default-on features, some nested lookups also under an optional one.  No nested alternate lookups (a nested lookup
+    reads the alternate index from the contextual lookup's mask)."""
+    rec = gsubgen.expansion_recipe(r, alternates=False)
+    tags = [f["tag"] for f in rec["gsub"]["features"]]
+    rec["on"] = [t for t in tags if t in ON_TAGS]
+    rec["user"] = [t for t in tags if t not in ON_TAGS]
+    rec["gsub"]["features"].sort(key=lambda f: T(f["tag"]))
+    return rec
+
+
 def typed_font(rec):
     return fontbuild.build({k: v for k, v in rec.items() if k not in ("on", "user", "seqs")})
 
@@ -1302,9 +1315,10 @@ def typed_text(r, rec, n=None):
     if rec["seqs"] and r.chance(1, 2):
         while len(gl) < n and r.chance(3, 4):
             gl += r.choice(rec["seqs"])
-            if r.chance(1, 3): gl.append(1 + r.below(NBASE))
+            if r.chance(1, 3): gl.append(r.choice(rec.get("text_glyphs") or list(range(1, NBASE + 1))))
+    alpha = rec.get("text_glyphs") or list(range(1, NBASE + 1))
     while len(gl) < n:
-        gl.insert(r.below(len(gl) + 1), 1 + r.below(NBASE))
+        gl.insert(r.below(len(gl) + 1), r.choice(alpha))
     gl = gl[:n]
     k = r.below(8)
     if k == 0:                          # clusters shared by neighbours
@@ -1405,7 +1419,7 @@ def typed_cases(ctx, shim, r, nfonts, nrandom, prefix="Y"):
     tags = DEFAULT_TAGS + [T(t) for t in USER_TAGS] + [T("zzzz")]
     recs = []
     while len(recs) < nfonts:
-        rec = typed_recipe(r)
+        rec = typed_expansion_recipe(r) if len(recs) % 4 == 3 else typed_recipe(r)
         try:
             recs.append((rec, typed_font(rec).hex()))
         except fontbuild.FontBuildError:
@@ -1451,10 +1465,10 @@ def classify_typed(ln, out):
 def growth_then_later_index(rec):
     """Does a contextual rule of the font apply a GROWING nested lookup (multiple substitution, a sequence of >= 2 glyphs) and
     then a record with a greater sequence index?  The crate (like HarfBuzz, apply_lookup: "Recursed lookup changed buffer
-    len. Adjust.") makes the inserted glyphs part of the matched sequence, so the later index counts them; the executable
-    specification Spec/OpenTypeSubst.lean::applyRecords keeps counting the original input glyphs.  The two readings differ
-    there (nothing to do with feature ranges): such fonts are not judged against the specification — they stay in the
-    feature-shape-gsub correspondence, where the interpreter model follows the crate."""
+    len. Adjust.") makes the inserted glyphs part of the matched sequence, so the later index counts them; so does the
+    executable specification (Spec/OpenTypeSubst.lean::applyRecords, since its correction: the sequence index of a later
+    record refers to the sequence as modified).  Such fonts ARE judged; the function only counts them (a quarter of the
+    fonts — typed_expansion_recipe — is built to be of this kind)."""
     lookups = rec["gsub"]["lookups"]
     def grows(li):
         return (li < len(lookups) and lookups[li]["type"] == 2
@@ -1495,7 +1509,7 @@ def typed_search(ctx, shim, model, cases):
             ok, cmpcl = _c06.in_spec_domain(rec, st)
             if drift:
                 ndrift += 1
-            if not ok or drift or not y.startswith("ok "):
+            if not ok or not y.startswith("ok "):
                 continue
             if not x.startswith("ok "):
                 bad += 1
@@ -1534,7 +1548,7 @@ def typed_search(ctx, shim, model, cases):
                        "recipe": {k: v for k, v in rec.items() if k != "seqs"},
                        "expected": exp, "observed": x, "clusters_compared": cmpcl})
     ctx.note_search("feature-shape-typed", n, acted, in_domain=indom, deviations=bad, substituted=acted,
-                    not_judged_growth_then_later_sequence_index=ndrift,
+                    growth_then_later_sequence_index=ndrift,
                     substituted_under_partial_range=ranged_hit, substituted_by_font_lookup_types=by_type, fonts=len(cases),
                     rule="generated GSUB(/GDEF) fonts with lookups of types 1, 2, 3, 4, 5, 6 (formats 1 and 3, nested single / multiple "
                          "lookups) and 8 (reverse chaining, with and without backtrack / lookahead), 1-2 default-on and 2-4 optional "
@@ -1543,9 +1557,10 @@ def typed_search(ctx, shim, model, cases):
                          "optional features) plus random lists of 1-3 entries on texts of 1-6 glyphs (shared and sparse clusters). "
                          "Oracle: Spec.applyAll (Spec/OpenTypeSubst.lean) over all referenced lookups in lookup-list order with glyph "
                          "and lookup masks computed from the per-cluster feature values in the oracle's own bit layout; judged on the "
-                         "specification's domain of unambiguity, and not on fonts where a contextual rule applies a growing nested "
-                         "lookup and then a record with a greater sequence index (counted; the specification model and HarfBuzz read "
-                         "that index differently); non-trivial = some glyph was substituted")
+                         "specification's domain of unambiguity; every fourth font comes from the expansion profile of tools/gsubgen.py "
+                         "(contextual / chained rules of all three formats whose records grow the matched sequence by 2-4 glyphs and "
+                         "whose later records address every place of the grown sequence; counted: growth_then_later_sequence_index); "
+                         "non-trivial = some glyph was substituted")
 
 
 # ------------------------------------------------------------------------------------------------
